@@ -2,10 +2,12 @@ from __future__ import annotations
 
 from typing import Awaitable, Callable, Optional, Tuple, Union
 
+import h2.exceptions
+
 from .h2 import H2Protocol
 from .h11 import H2CProtocolRequiredError, H2ProtocolAssumedError, H11Protocol
 from ..config import Config
-from ..events import Event, RawData
+from ..events import Closed, Event, RawData
 from ..typing import AppWrapper, ConnectionState, TaskGroup, WorkerContext
 
 
@@ -91,6 +93,12 @@ class ProtocolWrapper:
                 self.server,
                 self.send,
             )
-            await self.protocol.initiate(error.headers, error.settings)
+            try:
+                await self.protocol.initiate(error.headers, error.settings)
+            except (ValueError, h2.exceptions.ProtocolError):
+                # The HTTP2-Settings header is not a valid base64
+                # encoded SETTINGS payload, nothing can be salvaged.
+                await self.send(Closed())
+                return
             if error.data != b"":
                 return await self.protocol.handle(RawData(data=error.data))
